@@ -279,8 +279,9 @@ def body_uid_names(hi, wi, cold):
     suffixes, upper-case extensions, foreign extensions and none: a first PUT (text/calendar, UID a) to the holder
     name, then a PUT with the same UID and other content to the writer name, through the web layer, by the same
     server or a restarted one.  Whatever the names, the members the server SERVES as text/calendar never share a
-    UID, a refusal leaves the writer name 404, and the second PUT is refused exactly when the holder is served as
-    text/calendar."""
+    UID, a refusal leaves the writer name 404, and the second PUT - sent as text/calendar, as text/plain or without a
+    media type - is refused when holder AND writer are calendar object resources (what the writer name and media type
+    make of the body is observed on an empty collection) and accepted when the holder is none."""
     from xv.core import picks, untraced
     from xv.env import mweb
     hi, wi, cold = picks((hi, wi, cold), (len(NAMES_M), len(NAMES_M), "bool"))
@@ -301,31 +302,51 @@ def body_uid_names(hi, wi, cold):
         is_cal = (g.header("Content-Type") or "").startswith("text/calendar")
         if holder.lower().endswith(".ics") and not is_cal:
             return (False, "ics-not-calendar")
-        if cold:
-            Wb.open_store_from_path.cache_clear()
-            app = mweb.make_app()
-        r = mweb.call(app, "PUT", mweb.CAL + "/" + writer, body=b"ya", content_type="text/calendar")
-        cls = ("cal" if is_cal else "other") + ":" + r.status_class
-        if (r.status_class == "412") != is_cal or r.status_class not in ("2xx", "412"):
-            return (False, cls)
-        for restart in (False, True):
-            if restart:
-                Wb.open_store_from_path.cache_clear()
-                app = mweb.make_app()
-            seen = []
-            for n in (holder, writer):
-                g = mweb.call(app, "GET", mweb.CAL + "/" + n)
-                if n == writer and r.status_class == "412":
-                    if g.status_class != "404":
-                        return (False, cls + ":refused-but-present")
-                    continue
-                if g.status_class != "2xx" or g.body != (b"xa" if n == holder else b"ya"):
-                    return (False, cls + ":not-served")
-                if (g.header("Content-Type") or "").startswith("text/calendar"):
-                    u = SP.uid("x.ics", g.body)
-                    if u in seen:
-                        return (False, cls + ":shared-uid")
-                    seen.append(u)
+        cls = "none"
+        for wct in ("text/calendar", "text/plain", "application/octet-stream"):
+          # what the writer name + request media type make of the body, seen on an empty collection: a calendar
+          # object resource (served as text/calendar) or something else
+          mweb.fresh_world({}, {"c.vcf": b"v1"}, kind=kind)
+          app = mweb.make_app()
+          r0 = mweb.call(app, "PUT", mweb.CAL + "/" + writer, body=b"ya", content_type=wct)
+          g0 = mweb.call(app, "GET", mweb.CAL + "/" + writer)
+          w_cal = r0.status_class == "2xx" and (g0.header("Content-Type") or "").startswith("text/calendar")
+          if r0.status_class != "2xx":
+              return (False, "writer-alone-refused")
+          mweb.fresh_world({}, {"c.vcf": b"v1"}, kind=kind)
+          app = mweb.make_app()
+          r = mweb.call(app, "PUT", mweb.CAL + "/" + holder, body=b"xa", content_type="text/calendar")
+          if r.status_class != "2xx":
+              return (False, "holder-refused")
+          if cold:
+              Wb.open_store_from_path.cache_clear()
+              app = mweb.make_app()
+          r = mweb.call(app, "PUT", mweb.CAL + "/" + writer, body=b"ya", content_type=wct)
+          cls = ("cal" if is_cal else "other") + ":" + r.status_class
+          # both calendar object resources: refused; the holder none (nobody holds the UID): accepted; holder a calendar
+          # object and the body handled as iCalendar although the writer will not be served as one: either
+          want = ("412",) if (is_cal and w_cal) else ("2xx",) if not is_cal else ("2xx", "412")
+          if r.status_class not in want:
+              ctx.LAST_EXC = "holder %r (calendar: %r), writer %r sent as %s (calendar: %r): %s" % (holder, is_cal, writer, wct, w_cal, r.status_class)
+              return (False, cls)
+          for restart in (False, True):
+              if restart:
+                  Wb.open_store_from_path.cache_clear()
+                  app = mweb.make_app()
+              seen = []
+              for n in (holder, writer):
+                  g = mweb.call(app, "GET", mweb.CAL + "/" + n)
+                  if n == writer and r.status_class == "412":
+                      if g.status_class != "404":
+                          return (False, cls + ":refused-but-present")
+                      continue
+                  if g.status_class != "2xx" or g.body != (b"xa" if n == holder else b"ya"):
+                      return (False, cls + ":not-served")
+                  if (g.header("Content-Type") or "").startswith("text/calendar"):
+                      u = SP.uid("x.ics", g.body)
+                      if u in seen:
+                          return (False, cls + ":shared-uid")
+                      seen.append(u)
         return (True, cls)
 
 
@@ -445,9 +466,9 @@ HARNESSES = [
     Harness("uid_names", h_uid_names, body_uid_names, classes=[("cal:412", "tree"), ("other:2xx", "bare")],
             parts={"quick": ["tree", "bare"]}, budget={"quick": 60, "thorough": 120},
             describe="holder and writer names from a menu of 9 (encoding suffixes .gz/.bz2/.xz, upper-case extension, foreign "
-                     "and no extension), same UID, through the web layer, warm or restarted server: the second PUT is refused "
-                     "exactly when the holder is served as text/calendar, a refusal leaves the name 404, and members served as "
-                     "text/calendar never share a UID; exhaustive over the menu; part = store kind",
+                     "and no extension), same UID, through the web layer, warm or restarted server, the second PUT sent as text/calendar, "
+                     "text/plain or application/octet-stream: refused when both are calendar object resources, accepted when the holder is none, a refusal "
+                     "leaves the name 404, and members served as text/calendar never share a UID; exhaustive over the menu; part = store kind",
             encodes=["xandikos.store.open_by_extension", "xandikos.store.open_by_content_type",
                      "xandikos.store.git.GitStore.iter_with_etag", "xandikos.store.git.GitStore._scan_uids",
                      "xandikos.store.git.GitStore._check_duplicate", "xandikos.web.StoreBasedCollection.create_member",
